@@ -23,6 +23,7 @@ func c13(r *Report) {
 	const dsub = "vdr/didsubject"
 	r.Explanation = "Static decision of the two-phase protocol behind all-or-nothing subject operations: (1) document versions are created only inside closures run by transactionHelper (plus one listed migration); Commit is called only by transactionHelper and IsCommitted only by the sweep; (2) in transactionHelper the first SQL transaction contains the operation and the Save of every change-log entry and fails when either fails; the commit loop stops at the first failing Commit (the next iteration is reachable only through a nil error) and lies between the two transactions; the second transaction deletes the document versions iff a Commit failed, else the change log, and its error takes priority; (3) the sweep deletes document versions only when IsCommitted reported false, decides per transaction id (the commit-status loop and the delete loop are different loops over the same group), restricted to versions older than a positive delay, and always clears the change log; (4) versions are consecutive (latest+1 with -1 as the no-document sentinel); (5) compensation table agreement: every table written in phase 1 that decides whether a subject exists (did) is removed on the failure branch and in the sweep for created DIDs, directly or through ON DELETE CASCADE edges read from the SQL migrations."
 	r.NotDecided = []string{"crash instants and SQL atomicity/isolation themselves", "timing of the sweep", "that keys created for an abandoned version are never published relies on the method managers' Commit being the only publisher (ownership checked, semantics not)"}
+	gormZeroValue(r, "C13.sql.no-struct-condition", "an empty id/subject or version 0 would drop the condition or the update", 1, nil, "vdr/didsubject")
 	r.Assumptions = []string{"gorm.DB.Transaction rolls back when the callback returns an error", "gorm Create on a model inserts its associated rows (DID, VerificationMethods, Services)", "ON DELETE CASCADE is enforced by the SQL engine (foreign keys enabled)"}
 
 	th := p.Func(dsub, "SqlManager", "transactionHelper")
@@ -84,7 +85,7 @@ func c13(r *Report) {
 		cls := anonCalling(rb, Fn(dsub, "MethodManager", "IsCommitted"))
 		cl := one(cls)
 		r.Gate(Gate{ID: "C13.sweep.delete-only-uncommitted", Fn: cl, Effect: deleteOf("DidDocument"), Check: CallCheck(Fn(dsub, "MethodManager", "IsCommitted"), 0, IsFalse)})
-		r.Gate(Gate{ID: "C13.sweep.iscommitted-error-aborts", Fn: cl, ForEach: true, Effect: AnyEffect(deleteOf("DidDocument"), deleteOf("DIDChangeLog")), Check: ErrCheck(Fn(dsub, "MethodManager", "IsCommitted"))})
+		r.Gate(Gate{ID: "C13.sweep.iscommitted-error-aborts", Fn: cl, ForEach: true, AllowEarlyExit: true /* `if !committed { break }`: one uncommitted member decides for the whole transaction (exists-semantics); the error gate is what must hold per visited element */, Effect: AnyEffect(deleteOf("DidDocument"), deleteOf("DIDChangeLog")), Check: ErrCheck(Fn(dsub, "MethodManager", "IsCommitted"))})
 		c13SweepPerTransaction(r, cl)
 		c13SweepDelay(r, rb)
 	}
